@@ -13,8 +13,11 @@ for f in sorted(glob.glob('/dev/shm/seedq*.log'),key=os.path.getmtime):
         sig=''
         if i+1<len(lines) and lines[i+1].startswith('violation:'):
             mm=re.search(r'sig=(\S+)',lines[i+1]); sig=mm.group(1) if mm else ''
+        old=res.get(key,{})
         res[key]={"property":m.group(1),"demo_passes_on_clean":m.group(3)=='0',"demo_fails_with_patch":m.group(4)!='0',
                   "package_tests":m.group(5).strip(),"package_tests_pass_with_patch":m.group(6)=='0',
                   "check_exit":int(m.group(7)),"caught":m.group(7)=='1',"signature":sig}
+        for kk in ("final","also_caught_by"):
+            if kk in old: res[key][kk]=old[kk]
 json.dump(res,open(p,'w'),indent=1,sort_keys=True)
 c=sum(1 for v in res.values() if v['caught']); print(len(res),'changes;',c,'caught;',[k for k,v in res.items() if not v['caught']])
